@@ -206,6 +206,9 @@ func (e *c03Expr) src() string {
 			}
 			return "false"
 		}
+		if c03Sty.hexLits && e.n.Cmp(big.NewInt(9)) > 0 {
+			return "0x" + e.n.Text(16)
+		}
 		return e.n.String()
 	case c03EBin:
 		return "(" + e.a.src() + " " + c03BinSrc[e.op] + " " + e.b.src() + ")"
@@ -350,6 +353,45 @@ func (s *c03Stmt) copyOffW() (int, int) {
 	return s.lo * ew, cnt * ew
 }
 
+// c03Mentions: e reads variable id.
+func c03Mentions(e *c03Expr, id int) bool {
+	if e == nil {
+		return false
+	}
+	if e.tag == c03EVar && e.v.id == id {
+		return true
+	}
+	return c03Mentions(e.a, id) || c03Mentions(e.b, id)
+}
+
+// c03CompoundForm: x = x op e written x op= e (x++ / x-- for x = x +- 1);
+// "" when the assignment has no such form.
+func c03CompoundForm(s *c03Stmt) string {
+	e := s.e
+	isX := func(a *c03Expr) bool { return a != nil && a.tag == c03EVar && !a.isLoopVar && a.v.id == s.v.id }
+	switch e.tag {
+	case c03EBin:
+		ops := map[int]string{c03Add: "+=", c03Sub: "-=", c03Mul: "*=", c03Div: "/=", c03BAnd: "&=", c03BOr: "|=", c03BXor: "^="}
+		op, ok := ops[e.op]
+		if !ok || !isX(e.a) || e.t.kind == 0 {
+			return ""
+		}
+		if e.b.tag == c03ELit && e.b.n.Cmp(big.NewInt(1)) == 0 && (e.op == c03Add || e.op == c03Sub) {
+			return s.v.name + map[int]string{c03Add: "++", c03Sub: "--"}[e.op]
+		}
+		return s.v.name + " " + op + " " + e.b.src()
+	case c03EShl:
+		if isX(e.a) {
+			return fmt.Sprintf("%s <<= %d", s.v.name, e.k)
+		}
+	case c03EShr:
+		if isX(e.a) {
+			return fmt.Sprintf("%s >>= %d", s.v.name, e.k)
+		}
+	}
+	return ""
+}
+
 func c03Indent(n int) string { return strings.Repeat("\t", n) }
 
 func (s *c03Stmt) src(sb *strings.Builder, ind int) {
@@ -358,12 +400,20 @@ func (s *c03Stmt) src(sb *strings.Builder, ind int) {
 	case c03SDecl:
 		if s.short {
 			fmt.Fprintf(sb, "%s%s := %s\n", in, s.v.name, s.e.src())
+		} else if c03Sty.splitDecl && !c03Mentions(s.e, s.v.id) {
+			fmt.Fprintf(sb, "%svar %s %s\n%s%s = %s\n", in, s.v.name, s.t.src(), in, s.v.name, s.e.src())
 		} else {
 			fmt.Fprintf(sb, "%svar %s %s = %s\n", in, s.v.name, s.t.src(), s.e.src())
 		}
 	case c03SDeclZero:
 		fmt.Fprintf(sb, "%svar %s %s\n", in, s.v.name, s.t.src())
 	case c03SAssign:
+		if c03Sty.compound {
+			if c := c03CompoundForm(s); c != "" {
+				fmt.Fprintf(sb, "%s%s\n", in, c)
+				break
+			}
+		}
 		fmt.Fprintf(sb, "%s%s = %s\n", in, s.v.name, s.e.src())
 	case c03SCopy:
 		if s.lo == 0 && s.hi == s.t.n {
@@ -398,7 +448,14 @@ func (s *c03Stmt) src(sb *strings.Builder, ind int) {
 		}
 		fmt.Fprintf(sb, "%s}\n", in)
 	case c03SFor:
-		fmt.Fprintf(sb, "%sfor %s := %d; %s < %d; %s++ {\n", in, s.v.name, s.lo, s.v.name, s.lo+s.cnt, s.v.name)
+		inc := s.v.name + "++"
+		switch c03Sty.loopForm {
+		case 1:
+			inc = s.v.name + " = " + s.v.name + " + 1"
+		case 2:
+			inc = s.v.name + " += 1"
+		}
+		fmt.Fprintf(sb, "%sfor %s := %d; %s < %d; %s {\n", in, s.v.name, s.lo, s.v.name, s.lo+s.cnt, inc)
 		for _, x := range s.a {
 			x.src(sb, ind+1)
 		}
@@ -408,7 +465,16 @@ func (s *c03Stmt) src(sb *strings.Builder, ind int) {
 		for _, e := range s.es {
 			parts = append(parts, e.src())
 		}
-		fmt.Fprintf(sb, "%sreturn %s\n", in, strings.Join(parts, ", "))
+		if c03Sty.named && c03Sty.bareReturn && c03StyFn != nil && len(parts) == len(c03StyFn.rets) {
+			for i, e := range parts {
+				fmt.Fprintf(sb, "%sres%d = %s\n", in, i, e)
+			}
+			fmt.Fprintf(sb, "%sreturn\n", in)
+		} else if c03Sty.comments {
+			fmt.Fprintf(sb, "%sreturn %s // done\n", in, strings.Join(parts, ", "))
+		} else {
+			fmt.Fprintf(sb, "%sreturn %s\n", in, strings.Join(parts, ", "))
+		}
 		for _, d := range s.dead {
 			d.src(sb, ind)
 		}
@@ -481,10 +547,35 @@ type c03Prog struct {
 	funcs   []*c03Func // definition order, main last
 	names   map[string]*c03Var
 	class   string
+	style   c03Style
 }
 
-func (p *c03Prog) src() string {
+// c03Style: how the SAME program (same Mini term) is spelled: different
+// doors into lexer.go / parser.go / the statement forms of ssagen.go.
+type c03Style struct {
+	compound    bool // x op= e, x++, x-- for x = x op e
+	splitDecl   bool // var x T <newline> x = e  for  var x T = e
+	groupParams bool // a, b T
+	hexLits     bool // 0x1f
+	comments    bool // header line, line and trailing comments, blank lines
+	loopForm    int  // 0: i++   1: i = i + 1   2: i += 1
+	named       bool // named results (r0 T0, ...)
+	bareReturn  bool // with named: r0 = e0 ... ; return
+	unsized     bool // main's integer parameters written int / uint (sizes via inputSizes)
+}
+
+var c03Sty c03Style // style of the program being printed
+var c03StyFn *c03Func
+
+func (p *c03Prog) src() string { return p.srcStyled(p.style) }
+
+func (p *c03Prog) srcStyled(sty c03Style) string {
+	c03Sty = sty
+	defer func() { c03Sty, c03StyFn = c03Style{}, nil }()
 	var sb strings.Builder
+	if sty.comments {
+		sb.WriteString("// -*- go -*-\n//\n// generated /* not a block comment */\n\n")
+	}
 	sb.WriteString("package main\n\n")
 	for _, st := range p.structs {
 		fmt.Fprintf(&sb, "type %s struct {\n", st.name)
@@ -494,15 +585,34 @@ func (p *c03Prog) src() string {
 		sb.WriteString("}\n\n")
 	}
 	for _, f := range p.funcs {
+		c03StyFn = f
 		var ps, rs []string
 		for i, v := range f.params {
-			ps = append(ps, v.name+" "+f.ptys[i].src())
+			ts := f.ptys[i].src()
+			if sty.unsized && f.name == "main" && f.ptys[i].kind != 0 {
+				ts = []string{"", "int", "uint"}[f.ptys[i].kind]
+			}
+			if sty.groupParams && i+1 < len(f.params) && f.ptys[i+1].equal(f.ptys[i]) {
+				ps = append(ps, v.name)
+			} else {
+				ps = append(ps, v.name+" "+ts)
+			}
 		}
-		for _, r := range f.rets {
-			rs = append(rs, r.src())
+		for i, r := range f.rets {
+			if sty.named {
+				rs = append(rs, fmt.Sprintf("res%d %s", i, r.src()))
+			} else {
+				rs = append(rs, r.src())
+			}
+		}
+		if sty.comments {
+			fmt.Fprintf(&sb, "// %s does things.\n", f.name)
 		}
 		fmt.Fprintf(&sb, "func %s(%s) (%s) {\n", f.name, strings.Join(ps, ", "), strings.Join(rs, ", "))
-		for _, s := range f.body {
+		for k, s := range f.body {
+			if sty.comments && k == 1 {
+				sb.WriteString("\n\t// a comment line\n")
+			}
 			s.src(&sb, 1)
 		}
 		sb.WriteString("}\n\n")
@@ -527,7 +637,7 @@ func (p *c03Prog) sx() SX {
 }
 
 func (p *c03Prog) clone() *c03Prog {
-	c := &c03Prog{structs: p.structs, names: p.names, class: p.class}
+	c := &c03Prog{structs: p.structs, names: p.names, class: p.class, style: p.style}
 	for _, f := range p.funcs {
 		nf := *f
 		nf.body = c03CloneBlock(f.body)
